@@ -43,6 +43,8 @@ TNext ==
      \/ /\ e.op = "setitem" /\ PSetItem(e.k, e.v) /\ why' = OpMatch(e)
      \/ /\ e.op = "delitem" /\ PDelItem(e.k) /\ why' = OpMatch(e)
      \/ /\ e.op = "clear" /\ PClear /\ why' = OpMatch(e)
+     \/ /\ e.op = "insertu" /\ PInsertU(e.k, e.v) /\ why' = OpMatch(e)
+     \/ /\ e.op = "popmin" /\ PPopMin /\ why' = OpMatch(e)
      \/ /\ e.op = "commit" /\ Commit /\ why' = CommitMatch(e)
      \/ /\ e.op = "abort" /\ Abort /\ why' = AbortMatch(e)
   /\ bad' = IF why' = "-" THEN 0 ELSE l
